@@ -410,3 +410,35 @@ func (e *Env) TrueDepths(name string) map[string]int {
 	e.depthCache = res
 	return res
 }
+
+// CachedNodesMatchFile checks, for every cached node of c that has a file location, that the node
+// in memory is a faithful copy of the 52-byte record at that location (item, left and right
+// locations, both aggregates).  A written node is immutable, so this holds at every quiescent
+// point, whatever readers, mutator and flusher did before.  Returns "" or a description.
+func CachedNodesMatchFile(c *gkvlite.Collection, img []byte) string {
+	res := ""
+	n := 0
+	gkvlite.VerifWalk(c, func(v gkvlite.VerifNode) {
+		if res != "" || v.NodeOff <= 0 || v.NodeLen != 52 || v.NodeOff+52 > int64(len(img)) {
+			return
+		}
+		n++
+		r := img[v.NodeOff : v.NodeOff+52]
+		u64 := func(b []byte) int64 {
+			var x int64
+			for _, c := range b {
+				x = x<<8 | int64(c)
+			}
+			return x
+		}
+		io, il := u64(r[0:8]), uint32(u64(r[8:12]))
+		lo, ll := u64(r[12:20]), uint32(u64(r[20:24]))
+		ro, rl := u64(r[24:32]), uint32(u64(r[32:36]))
+		nn, nb := uint64(u64(r[36:44])), uint64(u64(r[44:52]))
+		if v.ItemOff != io || v.ItemLen != il || v.LeftOff != lo || v.LeftLen != ll || v.RightOff != ro || v.RightLen != rl || v.NumNodes != nn || v.NumBytes != nb {
+			res = fmt.Sprintf("the cached node for file location %d (depth %d) is not the record stored there: in memory item=(%d,%d) left=(%d,%d) right=(%d,%d) numNodes=%d numBytes=%d, on file item=(%d,%d) left=(%d,%d) right=(%d,%d) numNodes=%d numBytes=%d",
+				v.NodeOff, v.Depth, v.ItemOff, v.ItemLen, v.LeftOff, v.LeftLen, v.RightOff, v.RightLen, v.NumNodes, v.NumBytes, io, il, lo, ll, ro, rl, nn, nb)
+		}
+	})
+	return res
+}
